@@ -5,6 +5,14 @@
 //! * `clean_cons`  — `wal.conservative_mode = true`  (own process: CONFIG is read once)
 //! * `clean_plain` — `wal.conservative_mode = false`
 //! * `codec`       — archive byte round trip of arbitrary `ScalarValue`s and archive file names
+//! * `clean_wfault` — conservative mode, larger logs (some archives above 8 KiB compressed), and
+//!                   most calls run under a file-size limit (`RLIMIT_FSIZE`, `SIGXFSZ` ignored) of 0,
+//!                   a few hundred bytes, half an archive, just below an archive's size (only the
+//!                   tail fails), between two sizes, or above all: creating / truncating / syncing
+//!                   the archive file works, writing its data fails with EFBIG for exactly the
+//!                   archives larger than the limit. Sizes come from a fault-free dry run; the ids
+//!                   whose write must fail are handed to the model (`Fault.write`), which predicts
+//!                   `Err` results, the undecodable leftover file and "nothing deleted".
 //! * `witness`     — the fixed witnesses of the `_fails` theorems (cases 0–2, expected to fail the
 //!                   oracle with their class) and their positive counterparts (cases 3–5)
 //!
@@ -554,6 +562,25 @@ fn gen_name(r: &mut Rng, ids: &[u64]) -> String {
     }
 }
 
+/// A log whose archive stays large after zstd: many entries with random (incompressible) text.
+fn gen_big_file(r: &mut Rng, name: String, base_ts: u64) -> GFile {
+    let n = 20 + r.below(60);
+    let lines = (0..n)
+        .map(|k| {
+            let blob: String = (0..(150 + r.below(400))).map(|_| *r.pick(b"abcdefghijklmnopqrstuvwxyzABCDEFGHIJKLMNOPQRSTUVWXYZ0123456789+/") as char).collect();
+            let e = Ent {
+                ty: "blob".into(),
+                ctx: format!("c{}", r.below(4)),
+                ts: base_ts + k / 8,
+                eid: r.next(),
+                payload: vec![("blob".into(), SV::Str(blob)), ("k".into(), SV::Int(k as i64))],
+            };
+            classify(serde_json::to_string(&real_of_ent(&e)).unwrap())
+        })
+        .collect();
+    GFile { name, is_dir: false, lines, final_newline: true }
+}
+
 fn gen_file(r: &mut Rng, name: String, base_ts: u64) -> GFile {
     if r.chance(1, 30) {
         return GFile { name, is_dir: true, lines: vec![], final_newline: false };
@@ -601,6 +628,9 @@ struct GStep {
     /// 'M' = `WalArchiver::archive_log(arg)` (what `wal_archive_manager archive` calls)
     op: char,
     bound: u64,
+    /// 0 = no write fault; otherwise selects the file-size limit the call runs under
+    /// (stream `clean_wfault` only; the limit itself depends on the archives' sizes at run time)
+    fault_sel: u64,
 }
 
 #[derive(Clone, Debug)]
@@ -612,7 +642,7 @@ struct GCase {
     steps: Vec<GStep>,
 }
 
-fn gen_case(r: &mut Rng, shard: usize) -> GCase {
+fn gen_case(r: &mut Rng, shard: usize, wfault: bool) -> GCase {
     let base_ts = 1_700_000_000 + r.below(50);
     let ids: Vec<u64> = match r.below(12) {
         0 => vec![99_998, 99_999, 100_000, 100_001, 9, 10],
@@ -670,7 +700,11 @@ fn gen_case(r: &mut Rng, shard: usize) -> GCase {
                 continue;
             }
             used.insert(name.clone());
-            files.push(gen_file(r, name, base_ts));
+            if wfault && r.chance(1, 4) {
+                files.push(gen_big_file(r, name, base_ts));
+            } else {
+                files.push(gen_file(r, name, base_ts));
+            }
         }
         let eligible_ids: Vec<u64> = steps.iter().flat_map(|st| st.files.iter()).chain(files.iter()).filter_map(|f| log_id_spec(&f.name)).collect();
         let bound = match r.below(12) {
@@ -691,7 +725,8 @@ fn gen_case(r: &mut Rng, shard: usize) -> GCase {
         } else {
             bound
         };
-        steps.push(GStep { files, op, bound });
+        let fault_sel = if wfault && r.chance(3, 4) { 1 + r.below(1 << 40) } else { 0 };
+        steps.push(GStep { files, op, bound, fault_sel });
     }
     let root = match r.below(20) {
         0 => 'f',
@@ -753,7 +788,7 @@ fn gen_case(r: &mut Rng, shard: usize) -> GCase {
 
 // ------------------------------------------------------------------ op line
 
-fn op_line(conservative: bool, shard: usize, c: &GCase, steps_done: &[Vec<GFile>]) -> String {
+fn op_line(conservative: bool, shard: usize, c: &GCase, steps_done: &[Vec<GFile>], faults_done: &[Vec<u64>]) -> String {
     let mut t: Vec<String> = vec!["clean".into(), (conservative as u8).to_string(), shard.to_string(), c.root.to_string(), c.nodes.len().to_string()];
     for (name, n) in &c.nodes {
         t.push(hexs(name));
@@ -771,7 +806,7 @@ fn op_line(conservative: bool, shard: usize, c: &GCase, steps_done: &[Vec<GFile>
         }
     }
     t.push(c.steps.len().to_string());
-    for (st, files) in c.steps.iter().zip(steps_done) {
+    for ((st, files), wf) in c.steps.iter().zip(steps_done).zip(faults_done) {
         t.push(files.len().to_string());
         for f in files {
             t.push(hexs(&f.name));
@@ -791,6 +826,8 @@ fn op_line(conservative: bool, shard: usize, c: &GCase, steps_done: &[Vec<GFile>
         }
         t.push(st.op.to_string());
         t.push(st.bound.to_string());
+        t.push(wf.len().to_string());
+        t.extend(wf.iter().map(|id| id.to_string()));
     }
     t.join(" ")
 }
@@ -942,7 +979,7 @@ fn plain_file(name: &str, tss: &[u64]) -> GFile {
 /// The witnesses of the `_fails` theorems of `Snel/Props/C19.lean`, replayed on the real code,
 /// followed by the positive counterparts (same shape, hypothesis of the `_partial` theorem met).
 fn witness_case(i: u64) -> GCase {
-    let step = |files: Vec<GFile>, bound: u64| GStep { files, op: 'C', bound };
+    let step = |files: Vec<GFile>, bound: u64| GStep { files, op: 'C', bound, fault_sel: 0 };
     let (root, steps) = match i {
         // C19_delete_implies_archived_fails: two spellings of log id 1
         0 => ('m', vec![step(vec![plain_file("wal-1.log", &[4]), plain_file("wal-00001.log", &[6])], 2)]),
@@ -966,7 +1003,20 @@ fn run_clean(a: &snel_harness::out::Args, conservative: bool) {
         std::fs::canonicalize(&a.out).unwrap()
     });
     let witness = a.stream == "witness";
-    let stream_name = if witness { "witness" } else if conservative { "clean_cons" } else { "clean_plain" };
+    let wfault = a.stream == "clean_wfault";
+    let stream_name = if witness {
+        "witness"
+    } else if wfault {
+        "clean_wfault"
+    } else if conservative {
+        "clean_cons"
+    } else {
+        "clean_plain"
+    };
+    if wfault {
+        // a write beyond RLIMIT_FSIZE must come back as EFBIG, not kill the process
+        unsafe { signal(SIGXFSZ, SIG_IGN) };
+    }
     let base = out.join(format!("fs-{stream_name}"));
     let _ = std::fs::remove_dir_all(&base);
     std::fs::create_dir_all(&base).unwrap();
@@ -1001,7 +1051,7 @@ fn run_clean(a: &snel_harness::out::Args, conservative: bool) {
         }
         let mut r = Rng::for_case(a.seed, stream_name, i);
         let shard = i as usize;
-        let c = if witness { witness_case(i % 6) } else { gen_case(&mut r, shard) };
+        let c = if witness { witness_case(i % 6) } else { gen_case(&mut r, shard, wfault) };
         let d = Dirs {
             wal: base.join("wal").join(format!("shard-{shard}")),
             arch: base.join("arch").join(format!("shard-{shard}")),
@@ -1010,6 +1060,7 @@ fn run_clean(a: &snel_harness::out::Args, conservative: bool) {
         setup(&d, &c, shard);
         let mut imp: Vec<String> = vec![];
         let mut steps_done: Vec<Vec<GFile>> = vec![];
+        let mut faults_done: Vec<Vec<u64>> = vec![];
         let mut parser_disagrees: Option<String> = None;
         // oracle bookkeeping
         let mut on_disk: BTreeMap<String, GFile> = BTreeMap::new();
@@ -1045,6 +1096,63 @@ fn run_clean(a: &snel_harness::out::Args, conservative: bool) {
             steps_done.push(added);
             let before: Vec<String> = list_names(&d.wal);
             let arch_before = if conservative { None } else { Some(render_arch_only(&d)) };
+            // ---- write faults: a file-size limit chosen against the sizes the archives will have
+            let mut wfails: Vec<u64> = vec![];
+            let mut limit: Option<u64> = None;
+            if st.fault_sel != 0 {
+                let mut ids: Vec<u64> = before
+                    .iter()
+                    .filter_map(|n| log_id_spec(n))
+                    .filter(|id| if st.op == 'M' { *id == st.bound } else { *id < st.bound })
+                    .collect();
+                ids.sort();
+                ids.dedup();
+                // size of each archive, from a dry run without any fault into a scratch directory
+                let mut sizes: Vec<(u64, u64)> = vec![];
+                for id in ids {
+                    if let Some(cf) = on_disk.get(&canonical(id)).filter(|cf| cf.readable()) {
+                        let _ = std::fs::remove_dir_all(&d.scratch);
+                        let cfg = &snel_db::shared::config::CONFIG.wal;
+                        let a = WalArchive::from_wal_file(&d.wal.join(&cf.name), shard, id, cfg.compression_algorithm.clone(), cfg.compression_level).unwrap();
+                        let p = a.write_to_file(&d.scratch).unwrap();
+                        sizes.push((id, std::fs::metadata(&p).unwrap().len()));
+                        let _ = std::fs::remove_dir_all(&d.scratch);
+                    }
+                }
+                if !sizes.is_empty() {
+                    let pick = sizes[(st.fault_sel % sizes.len() as u64) as usize].1;
+                    let maxs = sizes.iter().map(|x| x.1).max().unwrap();
+                    let mut l = match (st.fault_sel >> 8) % 8 {
+                        0 | 1 => 0,
+                        2 => 100 + (st.fault_sel >> 16) % 300,
+                        3 => pick / 2,
+                        4 | 5 => pick.saturating_sub(16 + (st.fault_sel >> 16) % 48), // the tail only
+                        6 => pick + 40,                                                // this one fits, larger ones do not
+                        _ => maxs + 64,                                                // limit set, nothing fails
+                    };
+                    // keep clear of every size: the header's `created_at` may move a size by a few bytes
+                    if sizes.iter().any(|(_, sz)| sz.abs_diff(l) < 16) {
+                        l = 0;
+                    }
+                    wfails = sizes.iter().filter(|(_, sz)| *sz > l).map(|x| x.0).collect();
+                    limit = Some(l);
+                    s.tally("wfault_limit_set");
+                    s.tally(match l {
+                        0 => "wfault_limit_0",
+                        x if x > maxs => "wfault_limit_above_all",
+                        x if sizes.iter().any(|(_, sz)| *sz > x && *sz - x <= 64) => "wfault_limit_cuts_tail",
+                        _ => "wfault_limit_mid",
+                    });
+                    if sizes.iter().any(|(id, sz)| *sz > 8192 && wfails.contains(id)) {
+                        s.tally("wfault_on_archive_over_8KiB");
+                    }
+                    if sizes.iter().any(|(_, sz)| *sz > 8192) {
+                        s.tally("step_with_archive_over_8KiB");
+                    }
+                }
+            }
+            faults_done.push(wfails.clone());
+            let saved = limit.map(|l| set_fsize_limit(l));
             // ---- the code under test
             let res = match st.op {
                 'M' => if WalArchiver::new(shard).archive_log(st.bound).is_ok() { "ok".to_string() } else { "err".to_string() },
@@ -1058,6 +1166,9 @@ fn run_clean(a: &snel_harness::out::Args, conservative: bool) {
                 }
             };
             // ----
+            if let Some(old) = saved {
+                restore_fsize_limit(old);
+            }
             let o = observe(&d, shard);
             imp.push(format!("res={res} {}", render_obs(&o)));
             s.tally(&format!("op_{}", st.op));
@@ -1082,6 +1193,19 @@ fn run_clean(a: &snel_harness::out::Args, conservative: bool) {
                 BTreeSet::new()
             });
             if st.op != 'C' {
+                if !wfails.is_empty() {
+                    // the archiver must report the failed writes
+                    s.tally("step_with_write_fault_PM");
+                    let reported = match st.op {
+                        'M' => res == "err",
+                        _ => res.split(':').nth(1).and_then(|x| x.parse::<usize>().ok()).unwrap_or(0) >= wfails.len(),
+                    };
+                    if reported {
+                        s.tally("write_fault_PM_code_reported_err");
+                    } else {
+                        fails.push((format!("step {si}: archive data of logs {wfails:?} could not be written (limit {limit:?}) but the archiver returned {res}"), "-".to_string()));
+                    }
+                }
                 if !deleted.is_empty() {
                     fails.push((format!("step {si}: the archiver deleted {deleted:?}"), "-".to_string()));
                 }
@@ -1111,8 +1235,14 @@ fn run_clean(a: &snel_harness::out::Args, conservative: bool) {
                 let fault = eligible.iter().any(|f| {
                     let id = log_id_spec(&f.name).unwrap();
                     canonical(id) == f.name
-                        && (c.root == 'f' || c.root == 'b' || !f.readable() || squat(&arch_name_spec(id, &f.entries())))
+                        && (c.root == 'f' || c.root == 'b' || !f.readable() || squat(&arch_name_spec(id, &f.entries())) || wfails.contains(&id))
                 });
+                if !wfails.is_empty() {
+                    s.tally("step_with_write_fault_C");
+                    if deleted.is_empty() {
+                        s.tally("write_fault_C_code_deleted_nothing");
+                    }
+                }
                 if fault && !deleted.is_empty() {
                     fails.push((format!("step {si}: an eligible log could not be archived, yet {deleted:?} were deleted"), "-".to_string()));
                 }
@@ -1197,7 +1327,7 @@ fn run_clean(a: &snel_harness::out::Args, conservative: bool) {
                 fails.push(("recover_all failed although logs were deleted".into(), "-".into()));
             }
         }
-        let op = op_line(conservative, shard, &c, &steps_done);
+        let op = op_line(conservative, shard, &c, &steps_done, &faults_done);
         let imp_line = match &parser_disagrees {
             Some(t) => format!("parser-disagrees {}", hexs(t)),
             None => imp.join(" "),
@@ -1283,6 +1413,41 @@ fn render_arch_only(d: &Dirs) -> String {
     format!("{:?}|{}", std::fs::symlink_metadata(&d.arch).map(|m| m.is_dir()).ok(), t.join(","))
 }
 
+// ------------------------------------------------------------------ file-size limit (write faults)
+
+#[repr(C)]
+struct RLimit {
+    cur: u64,
+    max: u64,
+}
+const RLIMIT_FSIZE: i32 = 1;
+const SIGXFSZ: i32 = 25;
+const SIG_IGN: usize = 1;
+unsafe extern "C" {
+    fn getrlimit(resource: i32, rlim: *mut RLimit) -> i32;
+    fn setrlimit(resource: i32, rlim: *const RLimit) -> i32;
+    fn signal(signum: i32, handler: usize) -> usize;
+}
+
+/// Lowers the soft RLIMIT_FSIZE of this process: every write that would make a regular file
+/// larger than `bytes` is cut short / fails with EFBIG, while creating, truncating, syncing and
+/// unlinking still work — the shape of ENOSPC / EDQUOT on the archive volume. Returns the old
+/// soft limit. Nothing else in this (single-threaded) process writes while the limit is in force.
+fn set_fsize_limit(bytes: u64) -> u64 {
+    let mut cur = RLimit { cur: 0, max: 0 };
+    assert_eq!(unsafe { getrlimit(RLIMIT_FSIZE, &mut cur) }, 0);
+    let new = RLimit { cur: bytes.min(cur.max), max: cur.max };
+    assert_eq!(unsafe { setrlimit(RLIMIT_FSIZE, &new) }, 0);
+    cur.cur
+}
+
+fn restore_fsize_limit(old: u64) {
+    let mut cur = RLimit { cur: 0, max: 0 };
+    assert_eq!(unsafe { getrlimit(RLIMIT_FSIZE, &mut cur) }, 0);
+    let new = RLimit { cur: old, max: cur.max };
+    assert_eq!(unsafe { setrlimit(RLIMIT_FSIZE, &new) }, 0);
+}
+
 // ------------------------------------------------------------------ codec stream
 
 fn run_codec(a: &snel_harness::out::Args) {
@@ -1362,7 +1527,7 @@ fn run_codec(a: &snel_harness::out::Args) {
 fn main() {
     let a = parse_args();
     match a.stream.as_str() {
-        "clean_cons" | "witness" => run_clean(&a, true),
+        "clean_cons" | "witness" | "clean_wfault" => run_clean(&a, true),
         "clean_plain" => run_clean(&a, false),
         "codec" => run_codec(&a),
         other => {
